@@ -114,6 +114,10 @@ def classify(msgs, reject_msg):
     return 'JUNK'
 
 
+def classify_all(msgs, reject_msg):
+    return [classify([m], reject_msg) for m in msgs]
+
+
 def obligations(tier):
     obs = []
     for si, st in enumerate(STATES):
@@ -185,6 +189,15 @@ def _script_mech(authentication, log, outcomes):
     return ScriptMech
 
 
+def _state_name(a):
+    """Name of the authenticator's protocol state if this tree keeps it in a readable form, else None."""
+    s = getattr(a, 'state', None)
+    for cand in (s, getattr(s, 'name', None), getattr(s, 'value', None)):
+        if isinstance(cand, str) and cand in STATES:
+            return cand
+    return None
+
+
 def build(family, p):
     from txdbus import authentication, error, protocol
     if family == 'step':
@@ -192,29 +205,45 @@ def build(family, p):
         state = STATES[si]
         raw, shape = LINES[li]
 
-        def h(rejects, outcome):
-            assume(0 <= rejects <= 5)
-            assume(0 <= outcome < 3)
+        def h(code):
+            rejects, outcome = decode_choice(code, [6, 3])
             log = []
             with notrace():
-                Mech = _script_mech(authentication, log, [outcome])
+                # the pre-state (protocol state, number of rejections so far) is reached by talking to the
+                # authenticator: `rejects` refused AUTH lines, then an AUTH that the scripted mechanism answers with
+                # a challenge (-> waiting for data) or accepts (-> waiting for BEGIN)
+                pre = {'WaitingForAuth': [], 'WaitingForData': [1], 'WaitingForBegin': [0]}[state]
+                script = pre + [outcome]
+                Mech = _script_mech(authentication, log, script)
                 a = authentication.BusAuthenticator(GUID)
                 a.mechanisms = {b'SCRIPT': Mech}
                 a.reject_msg = b'REJECTED SCRIPT'
                 pr = FakeProto()
                 a.beginAuthentication(pr)
-            a.state = state
-            a.reject_count = rejects
-            if state != 'WaitingForAuth':
-                a.current_mech = Mech()
+                for _ in range(rejects):
+                    a.handleAuthMessage(b'AUTH UNKNOWN')
+                if classify_all(pr.sent, a.reject_msg) != ['REJECTED'] * rejects:
+                    raise HarnessError('pre-state: refused AUTH lines were not answered REJECTED')
+                if pre:
+                    a.handleAuthMessage(b'AUTH SCRIPT')
+                    if classify(pr.sent[-1:], a.reject_msg) != ('DATA' if pre == [1] else 'OK'):
+                        raise HarnessError('pre-state: the scripted mechanism did not lead to the wanted state')
+                if _state_name(a) not in (None, state):
+                    raise HarnessError('pre-state: the authenticator reports another state')
+                del pr.sent[:]
+                nlog0 = len(log)
             closed = False
             try:
                 a.handleAuthMessage(raw)
             except error.DBusAuthenticationFailed:
                 closed = True
             got_reply = classify(pr.sent, a.reject_msg)
-            stepped = any(e[0] == 'step' for e in log)
-            cancelled = any(e[0] == 'cancel' for e in log)
+            stepped = any(e[0] == 'step' for e in log[nlog0:])
+            cancelled = any(e[0] == 'cancel' for e in log[nlog0:])
+            # where this tree keeps its bookkeeping readable it is compared too; otherwise only the conversation is
+            now_state = _state_name(a)
+            now_rej = getattr(a, 'reject_count', None)
+            has_mech_attr = hasattr(a, 'current_mech')
             ok = False
             for (reply, nstate, nrej, nclosed, authed, nstep, ncancel) in ref_step(state, rejects, shape, OUTCOMES[outcome]):
                 if nclosed:
@@ -223,7 +252,11 @@ def build(family, p):
                     continue
                 if closed:
                     continue
-                if got_reply != reply or a.state != nstate or a.reject_count != nrej:
+                if got_reply != reply:
+                    continue
+                if now_state is not None and now_state != nstate:
+                    continue
+                if isinstance(now_rej, int) and now_rej != nrej:
                     continue
                 if bool(a.authenticationSucceeded()) != authed:
                     continue
@@ -231,9 +264,9 @@ def build(family, p):
                     continue
                 if ncancel and not cancelled:
                     continue
-                if nstate == 'WaitingForAuth' and a.current_mech is not None:
+                if has_mech_attr and nstate == 'WaitingForAuth' and a.current_mech is not None:
                     continue
-                if nstate in ('WaitingForData', 'WaitingForBegin') and not authed and a.current_mech is None:
+                if has_mech_attr and nstate in ('WaitingForData', 'WaitingForBegin') and not authed and a.current_mech is None:
                     continue
                 ok = True
             check(ok, 'bus authenticator step differs from the DBus authentication state machine')
@@ -241,8 +274,8 @@ def build(family, p):
                 check(state == 'WaitingForBegin' and shape[0] == 'BEGIN', 'authenticated without OK + BEGIN')
             reached()
         h.__name__ = 'step'
-        return Spec(h, [('rejects', int), ('outcome', int)],
-                    witnesses=[(0, 0), (5, 2), (4, 2), (0, 1), (5, 0)])
+        return Spec(h, [('code', int)],
+                    witnesses=[(encode_choice(w, [6, 3]),) for w in ([0, 0], [5, 2], [4, 2], [0, 1], [5, 0])])
 
     if family == 'run':
         return _build_run(p)
